@@ -33,20 +33,25 @@ PROP_ID = "C12"
 DESIGN_REF = "6/C12"
 LEVEL_TEXT = (
     "Lean theorems for all inputs: the exact path-based SCC algorithm of utils/graphs.py raises nothing and yields the "
-    "mutual-reachability classes for every iteration order (scc_spec), hence group_by_strong_components / "
-    "group_by_namespace_clusters and the whole package layout are independent of set(edges)' order "
-    "(layout_clusters_order_independent); toposort_flatten / sort_classes / the whole DependenciesResolver run are functions "
-    "of the dependency relation; sort_types is order-free exactly when priorities are distinct (only bytes/object tie, "
-    "checked on the live table); sequence numbers / occurrence bounds / choice grouping are invariant under injective "
-    "relabelling of id(); CLI source order is listing-order free; CLI-flag / config-file / API configurations coincide "
-    "outside one proved corner. The model is tied to /repo by differential runs with the set iteration order forced "
-    "(ShuffledSet, forced vertex order), under 3 extra PYTHONHASHSEED worker processes, and by end-to-end generations "
-    "(3 routes x set orders x hash seeds) whose layout the model predicts"
+    "mutual-reachability classes for every iteration order (scc_spec), hence the cluster styles and the whole package layout "
+    "are independent of set(edges)' order (layout_clusters_order_independent); the styles namespaces / single-package / "
+    "filenames (group_common_paths over the sorted location set) designate every class independently of the container order "
+    "(namespaces/single_package/filenames_perm_equivariant); toposort_flatten / sort_classes / the whole DependenciesResolver "
+    "run are functions of the dependency relation; sort_types is order-free on the native types; sequence numbers / occurrence "
+    "bounds / choice grouping are invariant under injective relabelling of id() along inheritance chains; "
+    "DetectCircularReferences only flags references on a cycle and flags nothing on acyclic graphs whatever the visiting "
+    "order, while on cycles the flags provably depend on the order (finding C12-F6: the API is sensitive to the list order of "
+    "the source URIs); the --cache route is transparent iff the key determines the mapped classes (repaired: package in the "
+    "key); CLI source order is listing-order free; CLI-flag / config-file / API configurations coincide at full strength. "
+    "The model is tied to /repo by differential runs with the set iteration order forced (ShuffledSet, forced vertex order), "
+    "under 3 extra PYTHONHASHSEED worker processes, and by end-to-end generations in all five structure styles "
+    "(3 routes x set orders x hash seeds x repeated runs) whose layout the model predicts"
 )
 LEVEL_NOTE = (
-    "proved: order/id independence of every modelled set- or id()-dependent step incl. SCC correctness; not proved: "
-    "the template layer, click's parser, ruff and the XSD->class mapping (stand-ins / end-to-end byte comparison only), "
-    "so the verdict for the whole property is partial; five genuine violations are listed as known findings"
+    "proved: order/id independence of every modelled set- or id()-dependent step incl. SCC correctness and all structure "
+    "styles; not proved: the template layer, click's parser, ruff and the XSD->class mapping (stand-ins / end-to-end byte "
+    "comparison only), so the verdict for the whole property is partial; two violations stay listed (header timestamp, "
+    "API URI order)"
 )
 TRUSTED = [
     "harness/shims/toposort is this framework's re-implementation of toposort_flatten (the real package is not installed); the model follows the shim",
@@ -56,7 +61,7 @@ TRUSTED = [
     "combine_ns_package / to_package_name / module+package name normalisation are pure string functions and are taken from the implementation (uninterpreted in the theorems)",
 ]
 ASSUMPTIONS = [
-    "'same sources' for the programmatic API means the same *list* of URIs (ResourceTransformer.process does not sort; cli.generate does)",
+    "for the programmatic API the list order of the URIs matters (finding C12-F6); every other axis is compared on the sorted list",
     "container holds one class per qname when DesignateClassPackages runs (RenameDuplicateClasses ran before)",
     "id() values are positive and distinct for live objects",
 ]
@@ -249,7 +254,12 @@ def gen_scc(rng, tier):
         for vs, e in all_digraphs(n, loops):
             for vo in itertools.permutations(vs):
                 yield {"edges": e, "vorder": list(vo), "_nw": True}
-    n_rand = 250 if tier == "quick" else 3000
+    if tier != "quick":
+        # every loop-free digraph on 4 vertices under three vertex orders
+        for vs, e in all_digraphs(4, False):
+            for _k in range(3):
+                yield {"edges": e, "vorder": perm(rng, vs), "_nw": True}
+    n_rand = 250 if tier == "quick" else 6000
     for i in range(n_rand):
         n = rng.randint(2, 9)
         vs = qname_pool(rng, n)
@@ -305,7 +315,7 @@ def gen_toposort(rng, tier):
     for n in (1, 2, 3):
         for vs, e in all_digraphs(n, n < 3):
             yield {"data": e, "_nw": True}
-    for i in range(250 if tier == "quick" else 3000):
+    for i in range(250 if tier == "quick" else 6000):
         vs = qname_pool(rng, rng.randint(2, 9))
         # mostly acyclic: edges only towards earlier vertices, sometimes arbitrary
         acyclic = rng.random() < 0.7
@@ -452,7 +462,7 @@ def gen_clusters(rng, tier):
             for seed in (0, 1, 2):
                 cs = [dict(c, depsAll=S.shuffle_order(seed, c["deps"] + c["circ"])) for c in classes]
                 yield case(cs, style, "pkg.out", seed)
-    for i in range(220 if tier == "quick" else 3000):
+    for i in range(220 if tier == "quick" else 5000):
         seed = rng.randrange(10**6)
         n = rng.randint(2, 8)
         r = rng.random()
@@ -534,7 +544,7 @@ def gen_resolver(rng, tier):
         [{"qname": "{urn:m}Main", "deps": ["{urn:a}It-em", "{urn:b}item", "{urn:c}ITEM"]}],
         [["{urn:a}It-em", "p.x_y.z"], ["{urn:b}item", "p.x.z"], ["{urn:c}ITEM", "q.x_y"]],
     )
-    for i in range(300 if tier == "quick" else 4000):
+    for i in range(300 if tier == "quick" else 6000):
         n = rng.randint(1, 6)
         vs = qname_pool(rng, n + rng.randint(0, 5))
         inside, outside = vs[:n], vs[n:]
@@ -681,11 +691,11 @@ def gen_sort_types(rng, tier):
     for x in names:
         for y in names:
             yield {"types": [x, y], "_nw": True}
-    for i in range(200 if tier == "quick" else 2000):
+    for i in range(200 if tier == "quick" else 4000):
         k = rng.randint(2, 6)
         yield {"types": [rng.choice(names) for _ in range(k)], "_nw": i % 3 != 0}
     # through Attr.native_types = list(set(...)) with an explicit set order
-    for i in range(150 if tier == "quick" else 1500):
+    for i in range(150 if tier == "quick" else 3000):
         k = rng.randint(1, 5)
         tn = [rng.choice(names) for _ in range(k)]
         seed = rng.randrange(10**6)
@@ -856,7 +866,7 @@ def gen_seqchain(rng, tier):
     yield {"chain": [two(s1), two(s2)]}  # the shape of the former id() leak
     yield {"chain": [two(s1), [attr([("s", s2, 1, 1)])], two(s3)]}
     yield {"chain": [two(s2) + two(s1), two(s3)]}
-    for i in range(200 if tier == "quick" else 3000):
+    for i in range(200 if tier == "quick" else 5000):
         ids = [140000000000 + 16 * k for k in range(1, 120)]
         rng.shuffle(ids)
         chain = [rand_paths(rng, ids) for _ in range(rng.randint(1, 4))]
@@ -950,7 +960,7 @@ def gen_seqnum(rng, tier):
     ]
     for attrs, base in hand:
         yield {"attrs": attrs, "base": base}
-    for i in range(300 if tier == "quick" else 4000):
+    for i in range(300 if tier == "quick" else 6000):
         ids = [140000000000 + 16 * k for k in range(1, 60)]
         rng.shuffle(ids)
         attrs = rand_paths(rng, ids)
@@ -1037,7 +1047,7 @@ def impl_process_order(a):
 def gen_process_order(rng, tier):
     stems = ["a", "b", "B", "a1", "a_1", "z", "Z9", "m-m", "a.b", "_"]
     exts = ["xsd", "wsdl", "dtd", "xml", "json"]
-    for i in range(40 if tier == "quick" else 400):
+    for i in range(40 if tier == "quick" else 600):
         k = rng.randint(1, 7)
         names = []
         while len(names) < k:
@@ -1106,7 +1116,7 @@ def gen_config_routes(rng, tier):
             continue
         yield {"options": [[d, k, (True if d in (x, y) else None)] for d, k, _o, _s in cli]}
     yield {"options": [[d, k, (False if d == "format__eq" else True if d == "format__order" else None)] for d, k, _o, _s in cli]}
-    for _ in range(25 if tier == "quick" else 400):
+    for _ in range(25 if tier == "quick" else 800):
         yield {"options": rand_options(rng, rng.choice([0.2, 0.5, 0.9]))}
 
 
@@ -1114,7 +1124,29 @@ def classify_config_routes(a, o):
     if "err" in o:
         return "err"
     r = o["ok"]
-    return "routes-agree" if r["api"] == r["cli"] == r["file"] else "routes-differ"
+    opts = {d: v for d, _k, v in a["options"]}
+    corner = []
+    if opts.get("generic_collections") and opts.get("format__frozen"):
+        corner.append("generic+frozen")
+    if opts.get("format__order") and opts.get("format__eq") is False:
+        corner.append("order+noeq")
+    given = sum(1 for v in opts.values() if v is not None)
+    tag = "+".join(corner) or ("none" if given == 0 else "few" if given < 6 else "many")
+    return ("routes-agree:" if r["api"] == r["cli"] == r["file"] else "routes-differ:") + tag
+
+
+def classify_toposort(a, o):
+    if "err" in o:
+        return "err:" + str(o["err"])
+    keys = {k for k, _ in a["data"]}
+    extra = any(w not in keys for _k, ws in a["data"] for w in ws)
+    selfdep = any(k in ws for k, ws in a["data"])
+    return f"items={min(len(o['ok']), 4)}{'+' if len(o['ok']) > 4 else ''},extra={'y' if extra else 'n'},self={'y' if selfdep else 'n'}"
+
+
+def classify_process_order(a, o):
+    kinds = {t for _n, t in a["uris"]}
+    return f"files={min(len(a['uris']), 4)}{'+' if len(a['uris']) > 4 else ''},kinds={len(kinds)}"
 
 
 # ----------------------------------------------------------------------------
@@ -1231,7 +1263,7 @@ SEQLEAK_SCHEMA = {
 SEQLEAK_OPTIONS = {"compound_fields__enabled": True, "structure_style": "single-package", "package": "gen"}
 
 
-E2E_STYLES = ["clusters", "namespace-clusters"]
+E2E_STYLES = ["clusters", "namespace-clusters", "namespaces", "single-package", "filenames"]
 
 
 def e2e_options(rng, style=None):
@@ -1246,6 +1278,23 @@ def e2e_options(rng, style=None):
         o["relative_imports"] = True
     if rng.random() < 0.25:
         o["generic_collections"] = True  # with format__frozen: reverted by validate() on every route
+    # the rest of the configuration space, thinly: every CLI-settable option occurs
+    if rng.random() < 0.35:
+        from xsdata.models.config import DocstringStyle
+
+        extra = {
+            "docstring_style": rng.choice([e.value for e in DocstringStyle]),
+            "format__slots": True,
+            "format__order": True,
+            "format__eq": False,
+            "format__repr": False,
+            "format__unsafe_hash": True,
+            "wrapper_fields": True,
+            "ignore_patterns": True,
+            "max_line_length": rng.choice([60, 100]),
+        }
+        for k in rng.sample(sorted(extra), rng.randint(1, 3)):
+            o[k] = extra[k]
     return o
 
 
@@ -1261,13 +1310,17 @@ def trace_to_model_args(trace, options, seed):
                 "deps": c["deps"],
                 "circ": circ,
                 "depsAll": S.shuffle_order(seed, c["depsAll"]),
+                "location": c.get("location", ""),
             }
         )
+    style = options["structure_style"]
     return {
         "classes": classes,
-        "style": "clusters" if options["structure_style"] == "clusters" else "namespace_clusters",
+        "style": "namespace_clusters" if style == "namespace-clusters" else style,
         "package": options.get("package", "generated"),
         "nspkg": trace.get("nspkg", []),
+        "nsparts": trace.get("nsparts", []),
+        "common_dir": trace.get("common_dir", ""),
         "vorder": S.shuffle_order(seed, [c["qname"] for c in classes]),
     }
 
@@ -1317,7 +1370,7 @@ def canon_e2e(o):
 
 
 def gen_e2e(rng, tier):
-    n = 24 if tier == "quick" else 200
+    n = 24 if tier == "quick" else 800
     k = 0
     tries = 0
     while k < n and tries < n * 4:
@@ -1348,6 +1401,384 @@ def classify_e2e(a, o):
 
 
 # ----------------------------------------------------------------------------
+# ----------------------------------------------------------------------------
+# gen.circular : DetectCircularReferences
+# ----------------------------------------------------------------------------
+def local_circular(a):
+    """real Class objects: own types are attr types, the others extension types;
+    the handler is run on the classes in the given order"""
+    from xsdata.codegen.container import ClassContainer
+    from xsdata.codegen.handlers import DetectCircularReferences
+    from xsdata.codegen.models import Attr, AttrType, Class, Extension, Restrictions, Status
+    from xsdata.models.config import GeneratorConfig
+    from xsdata.models.enums import Tag
+
+    container = ClassContainer(GeneratorConfig())
+    objs = {}
+    for c in a["classes"]:
+        objs[c["ref"]] = Class(qname=f"C{c['ref']}", tag=Tag.COMPLEX_TYPE, location="mem", status=Status.FINALIZED)
+    handles = {}
+    for c in a["classes"]:
+        obj = objs[c["ref"]]
+        tps = []
+        for k, t in enumerate(c["types"]):
+            tp = AttrType(qname=f"C{t['target']}", reference=id(objs[t["target"]]), circular=t["circular"])
+            tps.append(tp)
+            if t["own"]:
+                obj.attrs.append(Attr(tag=Tag.ELEMENT, name=f"a{k}", types=[tp]))
+            else:
+                obj.extensions.append(Extension(tag=Tag.EXTENSION, type=tp, restrictions=Restrictions()))
+        handles[c["ref"]] = tps
+        container.add(obj)
+    h = DetectCircularReferences(container)
+    for r in a["order"]:
+        h.process(objs[r])
+    return ok([[c["ref"], [tp.circular for tp in handles[c["ref"]]]] for c in a["classes"]])
+
+
+def impl_circular(a):
+    return across_seeds("gen.circular", a, local_circular)
+
+
+def norm_circular_classes(classes):
+    """`Class.types()` lists the extension types first: keep that order in the args"""
+    out = []
+    for c in classes:
+        tys = [t for t in c["types"] if not t["own"]] + [t for t in c["types"] if t["own"]]
+        out.append({"ref": c["ref"], "types": tys})
+    return out
+
+
+def gen_circular(rng, tier):
+    def ty(t, own=True, circ=False):
+        return {"target": t, "circular": circ, "own": own}
+
+    hand = [
+        ([{"ref": 0, "types": []}], [0]),
+        ([{"ref": 0, "types": [ty(0)]}], [0]),  # self reference
+        ([{"ref": 0, "types": [ty(1)]}, {"ref": 1, "types": [ty(0)]}], [0, 1]),
+        ([{"ref": 0, "types": [ty(1)]}, {"ref": 1, "types": [ty(0)]}], [1, 0]),
+        ([{"ref": 0, "types": [ty(1)]}, {"ref": 1, "types": [ty(2)]}, {"ref": 2, "types": [ty(0)]}], [2, 0, 1]),
+        ([{"ref": 0, "types": [ty(1), ty(1)]}, {"ref": 1, "types": [ty(0, own=False)]}], [1, 0]),  # cycle through an extension
+        ([{"ref": 0, "types": [ty(1, circ=True)]}, {"ref": 1, "types": [ty(0)]}], [1, 0]),  # already flagged
+    ]
+    for classes, order in hand:
+        yield {"classes": norm_circular_classes(classes), "order": order}
+    # bounded exhaustive: every digraph on <= 3 classes (own edges), every visiting order
+    for n, loops in ((2, True), (3, False)):
+        for vs, e in all_digraphs(n, loops):
+            classes = [{"ref": int(v[1:]), "types": [ty(int(w[1:])) for w in ws]} for v, ws in e]
+            for order in itertools.permutations(range(n)):
+                yield {"classes": classes, "order": list(order), "_nw": True}
+    for i in range(250 if tier == "quick" else 5000):
+        n = rng.randint(2, 7)
+        p = rng.choice([0.15, 0.3, 0.5])
+        classes = []
+        for r in range(n):
+            tys = [ty(t, own=rng.random() < 0.8, circ=rng.random() < 0.05) for t in range(n) if rng.random() < p]
+            rng.shuffle(tys)
+            classes.append({"ref": r, "types": tys})
+        order = list(range(n))
+        rng.shuffle(order)
+        if rng.random() < 0.2:
+            order = order[: rng.randint(1, n)]  # lazily processed subsets
+        yield {"classes": norm_circular_classes(classes), "order": order, "_nw": i % 4 != 0}
+
+
+def classify_circular(a, o):
+    if "err" in o:
+        return "err:" + str(o["err"])[:16]
+    flagged = sum(1 for _r, fl in o["ok"] for f in fl if f)
+    ext = any(not t["own"] for c in a["classes"] for t in c["types"])
+    return f"flagged={min(flagged, 3)}{'+' if flagged > 3 else ''},ext={'y' if ext else 'n'}"
+
+
+def cycle_edges(classes):
+    """edges (class, index) that lie on a reference cycle — independent reachability"""
+    adj = {c["ref"]: {t["target"] for t in c["types"]} for c in classes}
+    reach = {r: set(ts) for r, ts in adj.items()}
+    changed = True
+    while changed:
+        changed = False
+        for r in reach:
+            new = set(reach[r])
+            for u in list(reach[r]):
+                new |= reach.get(u, set())
+            if new != reach[r]:
+                reach[r] = new
+                changed = True
+    return {(c["ref"], k) for c in classes for k, t in enumerate(c["types"]) if c["ref"] in reach.get(t["target"], set()) or t["target"] == c["ref"]}
+
+
+def check_circular(a):
+    """a reference is only flagged when it lies on a reference cycle; without cycles
+    nothing is flagged and the visiting order is irrelevant; the same input gives the
+    same flags however often the handler was used before in this process"""
+    try:
+        o = local_circular(a)
+        again = local_circular(a)
+    except Exception as e:  # noqa: BLE001
+        return f"DetectCircularReferences raised {type(e).__name__}: {e} (state shared between handler instances / earlier runs?)"
+    if again != o:
+        return f"the same classes processed twice in one process give different flags: {o} vs {again}"
+    on_cycle = cycle_edges(a["classes"])
+    for c, (_r, flags) in zip(a["classes"], o["ok"]):
+        for k, (t, f) in enumerate(zip(c["types"], flags)):
+            if f and not t["circular"] and (c["ref"], k) not in on_cycle:
+                return f"class {c['ref']} type {k} -> {t['target']} flagged circular but lies on no reference cycle"
+    if not on_cycle:
+        o2 = local_circular(dict(a, order=list(reversed(a["order"]))))
+        if o2 != o:
+            return f"acyclic references, yet the flags depend on the visiting order: {o} vs {o2}"
+    return None
+
+
+# ----------------------------------------------------------------------------
+# gen.styles : DesignateClassPackages for namespaces / single-package / filenames
+# ----------------------------------------------------------------------------
+def local_styles(a):
+    from xsdata.codegen.container import ClassContainer
+    from xsdata.codegen.handlers import DesignateClassPackages
+    from xsdata.codegen.models import Class, Status
+    from xsdata.models.config import GeneratorConfig, StructureStyle
+    from xsdata.models.enums import Tag
+
+    cfg = GeneratorConfig()
+    cfg.output.package = a["package"]
+    cfg.output.structure_style = StructureStyle(a["style"])
+    container = ClassContainer(cfg)
+    objs = [
+        Class(qname=c["qname"], tag=Tag.COMPLEX_TYPE, location=c["location"], status=Status.FINALIZED)
+        for c in a["classes"]
+    ]
+    for o in objs:
+        container.add(o)
+    import logging
+
+    from xsdata.logger import logger
+
+    logger.setLevel(logging.CRITICAL)
+    try:
+        DesignateClassPackages(container).run()
+    except IndexError:
+        return err("IndexError")
+    except ValueError:
+        return err("ValueError")
+    return ok([[o.qname, [o.package, o.module]] for o in objs])
+
+
+def impl_styles(a):
+    return across_seeds("gen.styles", a, local_styles)
+
+
+LOC_ROOTS = ["file:///s", "file:///s/sub", "file:///s/sub/deep", "file:///other/x", "http://h.org/a", "http://h.org/a/b", "http://k.org", "urn:weird"]
+LOC_FILES = ["a.xsd", "b.xsd", "a.b.xsd", "c.wsdl", "d.json", "e.txt", ".xsd", "f", "G.XSD", "x.y/z.xsd", "./h.xsd"]
+
+
+def styles_case(rng, classes, style, package):
+    from xsdata.codegen.container import ClassContainer
+    from xsdata.codegen.handlers import DesignateClassPackages
+    from xsdata.models.config import GeneratorConfig
+    from xsdata.models.enums import COMMON_SCHEMA_DIR
+
+    cfg = GeneratorConfig()
+    cfg.output.package = package
+    h = DesignateClassPackages(ClassContainer(cfg))
+    nss = []
+    for c in classes:
+        if c["ns"] not in nss:
+            nss.append(c["ns"])
+    return {
+        "classes": classes,
+        "style": style,
+        "package": package,
+        "nsparts": [[ns, list(h.combine_ns_package(ns))] for ns in nss],
+        "common_dir": COMMON_SCHEMA_DIR.as_uri(),
+    }
+
+
+def gen_styles(rng, tier):
+    from xsdata.models.enums import COMMON_SCHEMA_DIR
+
+    common = COMMON_SCHEMA_DIR.as_uri()
+
+    def cls(q, loc):
+        ns, _ = split_q(q)
+        return {"qname": q, "ns": ns, "location": loc}
+
+    hand = [
+        [],
+        [cls("A", "file:///s/a.xsd")],
+        [cls("A", "file:///s/a.xsd"), cls("{urn:x}B", "file:///s/t/b.xsd")],
+        [cls("{urn:x}B", "file:///s/t/b.xsd"), cls("A", "file:///s/a.xsd")],
+        [cls("A", "file:///s/a.xsd"), cls("B", "http://h.org/x/b.xsd"), cls("C", "http://h.org/x/y/c.xsd")],
+        [cls("A", common + "/xml.xsd"), cls("B", "file:///s/b.xsd"), cls("C", common + "/xlink.xsd")],
+        [cls("{http://www.w3.org/XML/1998/namespace}lang", common + "/xml.xsd"), cls("{urn:a-b:c}D", "file:///s/d.xsd")],
+        [cls("A", "a.xsd"), cls("B", "sub/b.xsd")],
+        [cls("A", "file:///s/a"), cls("B", "file:///s/a/b.xsd")],  # relative_to raises ValueError
+        [cls("A", "file:///s/x/a.xsd"), cls("B", "file:///s/x/a.xsd"), cls("C", "file:///s/y/a.xsd")],  # same module name twice
+    ]
+    for classes in hand:
+        for style in ("namespaces", "single-package", "filenames"):
+            for package in ("generated", "a.b"):
+                yield styles_case(rng, classes, style, package)
+    for i in range(300 if tier == "quick" else 5000):
+        n = rng.randint(1, 7)
+        roots = rng.sample(LOC_ROOTS, rng.randint(1, 3))
+        if rng.random() < 0.15:
+            roots.append(common)
+        locs = [rng.choice(roots) + "/" + rng.choice(LOC_FILES) for _ in range(rng.randint(1, 4))]
+        qs = qname_pool(rng, n)
+        classes = [cls(q, rng.choice(locs)) for q in qs]
+        style = rng.choice(["namespaces", "single-package", "filenames", "filenames"])
+        package = rng.choice(["generated", "a.b", "x", ""])
+        yield dict(styles_case(rng, classes, style, package), _nw=i % 4 != 0)
+
+
+def classify_styles(a, o):
+    if "err" in o:
+        return a["style"] + ":err:" + str(o["err"])
+    targets = {tuple(pm) for _q, pm in o["ok"]}
+    pk = {pm[0] for _q, pm in o["ok"]}
+    return f"{a['style']}:modules={min(len(targets), 3)}{'+' if len(targets) > 3 else ''},packages={min(len(pk), 2)}{'+' if len(pk) > 2 else ''}"
+
+
+def check_styles(a):
+    """the designation of every class does not depend on the container order nor on
+    what was designated before in this process; `namespaces`: every class lands in
+    the module named by its *own* namespace, `single-package`: in the one module"""
+    import random as _r
+
+    ref = local_styles(a)
+    if "ok" in ref:
+        parts_of = {ns: parts for ns, parts in a["nsparts"]}
+        for c, (q, pm) in zip(a["classes"], ref["ok"]):
+            if a["style"] == "namespaces":
+                parts = parts_of[c["ns"]]
+                exp = [".".join(parts[:-1]), parts[-1]]
+            elif a["style"] == "single-package":
+                parts = a["package"].split(".")
+                exp = [".".join(parts[:-1]), parts[-1]]
+            else:
+                continue
+            if pm != exp:
+                return f"class {q} (namespace {c['ns']}) designated to {pm}, its own namespace/package gives {exp}"
+    for k in (1, 2):
+        cs = list(a["classes"])
+        _r.Random(k).shuffle(cs)
+        got = local_styles(dict(a, classes=cs))
+        if ("err" in ref) != ("err" in got):
+            return f"container order decides whether designation fails: {ref} vs {got}"
+        if "ok" in ref and sorted(map(json.dumps, ref["ok"])) != sorted(map(json.dumps, got["ok"])):
+            return f"designation depends on the container order: {ref['ok']} vs {got['ok']}"
+    # another container in between must not change the result
+    other = [dict(c, ns="urn:other:" + str(i), qname="{urn:other:%d}X%d" % (i, i), location=c["location"] + ".other/x.xsd")
+             for i, c in enumerate(a["classes"][:2])]
+    if other:
+        try:
+            local_styles(dict(a, classes=other, nsparts=[]))
+        except Exception:  # noqa: BLE001
+            pass
+        again = local_styles(a)
+        if again != ref:
+            return f"designation depends on an earlier designation in the same process: {ref} vs {again}"
+    return None
+
+
+# ----------------------------------------------------------------------------
+# gen.cache : ResourceTransformer.process(uris, cache=True)
+# ----------------------------------------------------------------------------
+CACHE_DOCS = {"a.json": '{"x": 1, "inner": {"y": "t"}}', "b.json": '{"z": [1, 2]}', "c.json": '{"x": "other"}'}
+
+
+def run_cache_history(runs):
+    """the runs of one history share a temp directory (the cache lives there);
+    returns for every run the classes its analysis started from, as a digest"""
+    import shutil
+    import tempfile
+    import warnings as _w
+    from pathlib import Path
+
+    from xsdata.codegen.transformer import ResourceTransformer
+    from xsdata.models.config import GeneratorConfig
+
+    class T(ResourceTransformer):
+        def process_classes(self):
+            pass
+
+    d = os.path.realpath(tempfile.mkdtemp(prefix="c12cache"))
+    src = os.path.join(d, "src")
+    os.makedirs(src)
+    for n, text in CACHE_DOCS.items():
+        open(os.path.join(src, n), "w").write(text)
+    old = tempfile.tempdir
+    tempfile.tempdir = os.path.join(d, "tmp")
+    os.makedirs(tempfile.tempdir)
+    out = []
+    try:
+        with _w.catch_warnings():
+            _w.simplefilter("ignore")
+            for r in runs:
+                cfg = GeneratorConfig()
+                cfg.output.package = r["package"]
+                t = T(config=cfg)
+                t.process([Path(src, n).as_uri() for n in r["uris"]], cache=r.get("cache", True))
+                out.append(sorted(repr((c.qname, [a.name for a in c.attrs])) for c in t.classes))
+    finally:
+        tempfile.tempdir = old
+        shutil.rmtree(d, ignore_errors=True)
+    return out
+
+
+def local_cache(a):
+    cached = run_cache_history(a["runs"])
+    # what every (uris, package) maps to without any cache
+    fresh = [run_cache_history([dict(r, cache=False)])[0] for r in a["runs"]]
+    out = []
+    for i, got in enumerate(cached):
+        if got == fresh[i]:
+            j = i
+        else:
+            j = next((k for k in range(i) if fresh[k] == got), None)
+        out.append(None if j is None else [*a["runs"][j]["uris"], a["runs"][j]["package"]])
+    return ok(out)
+
+
+def impl_cache(a):
+    return local_cache(a)
+
+
+def gen_cache(rng, tier):
+    yield {"runs": [{"uris": ["a.json"], "package": "pk.foo"}, {"uris": ["a.json"], "package": "pk.bar"}]}
+    yield {"runs": [{"uris": ["a.json"], "package": "pk.foo"}, {"uris": ["a.json"], "package": "pk.foo"}]}
+    yield {"runs": [{"uris": ["a.json", "b.json"], "package": "p"}, {"uris": ["b.json", "a.json"], "package": "p"}, {"uris": ["a.json"], "package": "p"}]}
+    names = sorted(CACHE_DOCS)
+    for _ in range(12 if tier == "quick" else 150):
+        runs = []
+        for _k in range(rng.randint(2, 4)):
+            us = rng.sample(names, rng.randint(1, 2))
+            runs.append({"uris": us, "package": rng.choice(["pk.foo", "pk.bar", "foo", "q.foo"])})
+        yield {"runs": runs}
+
+
+def classify_cache(a, o):
+    if "err" in o:
+        return "err"
+    runs = a["runs"]
+    hits = sum(1 for i, r in enumerate(runs) if any(r["uris"] == q["uris"] and r["package"] == q["package"] for q in runs[:i]))
+    same_uris_other_pkg = any(r["uris"] == q["uris"] and r["package"] != q["package"] for i, r in enumerate(runs) for q in runs[:i])
+    return f"hits={min(hits, 2)},same-uris-other-package={'y' if same_uris_other_pkg else 'n'}"
+
+
+def check_cache(a):
+    o = local_cache(a)["ok"]
+    for i, (r, got) in enumerate(zip(a["runs"], o)):
+        exp = [*r["uris"], r["package"]]
+        if got != exp:
+            return f"run {i} ({exp}) with --cache started from the classes of {got}: the result depends on earlier runs"
+    return None
+
+
 IMPLS_LOCAL = {
     "gen.scc": local_scc,
     "gen.toposort": local_toposort,
@@ -1357,6 +1788,8 @@ IMPLS_LOCAL = {
     "gen.sort_types": local_sort_types,
     "gen.seqnum": local_seqnum,
     "gen.seqchain": local_seqchain,
+    "gen.circular": local_circular,
+    "gen.styles": local_styles,
 }
 
 
@@ -1367,7 +1800,7 @@ def nt_graph(a, o):
 CORRS = [
     Corr("gen.scc", gen_scc, impl_scc, nontrivial=nt_graph, canon=canon_scc, classify=classify_scc,
          describe="graphs.strongly_connected_components with the iteration order of set(edges) forced"),
-    Corr("gen.toposort", gen_toposort, impl_toposort, nontrivial=nt_graph,
+    Corr("gen.toposort", gen_toposort, impl_toposort, nontrivial=nt_graph, classify=classify_toposort,
          describe="toposort_flatten (shim) vs model"),
     Corr("gen.clusters", gen_clusters, impl_clusters, classify=classify_clusters,
          nontrivial=lambda a, o: any(c["deps"] or c["circ"] for c in a["classes"]),
@@ -1388,7 +1821,15 @@ CORRS = [
     Corr("gen.seqchain", gen_seqchain, impl_seqchain, classify=classify_seqchain,
          nontrivial=lambda a, o: len(a["chain"]) > 1,
          describe="the three handlers along an inheritance chain; ResetAttributeSequenceNumbers called on the last class only"),
-    Corr("gen.process_order", gen_process_order, impl_process_order,
+    Corr("gen.circular", gen_circular, impl_circular, classify=classify_circular,
+         nontrivial=lambda a, o: any(c["types"] for c in a["classes"]),
+         describe="DetectCircularReferences.process over real classes in a given visiting order"),
+    Corr("gen.styles", gen_styles, impl_styles, classify=classify_styles,
+         nontrivial=lambda a, o: len(a["classes"]) > 1,
+         describe="DesignateClassPackages.run for the styles namespaces / single-package / filenames"),
+    Corr("gen.cache", gen_cache, impl_cache, classify=classify_cache,
+         describe="histories of ResourceTransformer.process(uris, cache=True) sharing one temp directory"),
+    Corr("gen.process_order", gen_process_order, impl_process_order, classify=classify_process_order,
          nontrivial=lambda a, o: len(a["uris"]) > 1,
          describe="cli.generate source order with the glob order forced"),
     Corr("gen.config_routes", gen_config_routes, impl_config_routes, classify=classify_config_routes,
@@ -1423,6 +1864,9 @@ def e2e_runs(a, tier="quick"):
         yield f"api/setorder{sh}", S.generate_full("api", schemas, options, sh)
     yield "cli-flags", S.generate_full("cli", schemas, options, None)
     yield "cli-config-file", S.generate_full("file", schemas, options, None)
+    if len(schemas) > 1:
+        # the same source *set*, handed to the programmatic API in another list order
+        yield "api/uris-reversed", S.generate_full("api", schemas, options, None, "reversed")
     for w in workers():
         r = w.call({"cmd": "generate", "route": "api", "schemas": schemas, "options": options, "shuffle": None, "files": True})
         yield f"api/hashseed{w.seed}", r
@@ -1445,6 +1889,9 @@ def check_e2e(a):
 
 def covered_e2e(a, msg):
     o = a["options"]
+    if " and api/uris-reversed:" in msg and len(a["schemas"]) > 1:
+        # the only difference between the two runs is the list order of the URIs given to the API
+        return "C12-F6"
     if o.get("include_header") and "This file was generated by xsdata" in msg:
         return "C12-F3"
     return None
@@ -1452,7 +1899,7 @@ def covered_e2e(a, msg):
 
 def gen_oracle_e2e(rng, tier):
     yield {"schemas": SEQLEAK_SCHEMA, "options": SEQLEAK_OPTIONS}
-    for i in range(12 if tier == "quick" else 120):
+    for i in range(12 if tier == "quick" else 300):
         schemas = make_schema_set(rng)
         options = e2e_options(rng, rng.choice(["clusters", "namespace-clusters", "filenames", "namespaces", "single-package"]))
         if rng.random() < 0.15:
@@ -1665,6 +2112,9 @@ ORACLES = [
     Oracle("source-order-listing-independent", gen_process_order, check_process_order, from_ops=("gen.process_order",)),
     Oracle("config-routes-agree", gen_config_routes, check_config_routes, from_ops=("gen.config_routes",)),
     Oracle("paths-follow-cwd", gen_cwd, check_cwd),
+    Oracle("circular-flags-only-on-cycles", gen_circular, check_circular, from_ops=("gen.circular",)),
+    Oracle("styles-container-order-independent", gen_styles, check_styles, from_ops=("gen.styles",)),
+    Oracle("cache-history-independent", gen_cache, check_cache, from_ops=("gen.cache",)),
     Oracle("generation-byte-identical", gen_oracle_e2e, check_e2e, covered=covered_e2e, from_ops=("gen.e2e",),
            adapt=lambda op, a: {"schemas": a["schemas"], "options": a["options"]}),
 ]
@@ -1691,6 +2141,32 @@ def finding_header_timestamp():
     return close, f"header embeds the wall clock: {m.group(1)}"
 
 
+URI_ORDER_SCHEMAS = {
+    "f0.xsd": (
+        f'<xs:schema xmlns:xs="{XS}" xmlns:n1="urn:t1" targetNamespace="urn:t0" elementFormDefault="qualified">'
+        '<xs:import namespace="urn:t1" schemaLocation="f1.xsd"/>'
+        '<xs:complexType name="A"><xs:sequence><xs:element name="b" type="n1:B" minOccurs="0"/></xs:sequence></xs:complexType>'
+        "</xs:schema>"
+    ),
+    "f1.xsd": (
+        f'<xs:schema xmlns:xs="{XS}" xmlns:n0="urn:t0" targetNamespace="urn:t1" elementFormDefault="qualified">'
+        '<xs:import namespace="urn:t0" schemaLocation="f0.xsd"/>'
+        '<xs:complexType name="B"><xs:sequence><xs:element name="a" type="n0:A" minOccurs="0"/></xs:sequence></xs:complexType>'
+        "</xs:schema>"
+    ),
+}
+
+
+def finding_uri_order():
+    o = {"structure_style": "single-package", "package": "gen"}
+    a = S.generate_full("api", URI_ORDER_SCHEMAS, o, None)
+    b = S.generate_full("api", URI_ORDER_SCHEMAS, o, None, "reversed")
+    if "files" not in a or "files" not in b:
+        return False, f"generation failed: {a.get('err')} {b.get('err')}"
+    return a["digest"] != b["digest"], "process([f0, f1]) vs process([f1, f0]): " + first_diff(a["files"], b["files"])
+
+
 FINDINGS = {
     "C12-F3": finding_header_timestamp,
+    "C12-F6": finding_uri_order,
 }
